@@ -377,7 +377,7 @@ func TestVerif_C10_Exact(t *testing.T) {
 		compressed := rapid.Bool().Draw(rt, "compressed")
 		cuts, mode := g4Cuts(rt, len(src.data), src.hdrEnd)
 		nwal := len(src.hdr.GetFull().GetWalHeaders())
-		rec.Case(nwal > 0 || mode == "inside-header" || mode == "bytes-then-rest" || compressed, fmt.Sprintf("%s|%s|%v|%v", src.shape, mode, compressed, cuts))
+		rec.Case(nwal > 0 || mode == "inside-header" || mode == "near-header" || mode == "bytes-then-rest" || compressed, fmt.Sprintf("%s|%s|%v|%v", src.shape, mode, compressed, cuts))
 		rec.Label("split:" + mode)
 		rec.Label(fmt.Sprintf("wals:%d", min(nwal, 4)))
 		rec.Label(fmt.Sprintf("compressed:%v", compressed))
